@@ -31,6 +31,8 @@ CONSTANTS Procs,        \* set of process ids
           CopyCands,    \* candidates reached across volumes (home fallback): payload moved by copy + delete
           MaxFaults,    \* number of one-shot faults the environment may inject
           Sticky,       \* set of <<t, opkind>>: operations that fail every time (persistent error)
+          TooLong,      \* slots whose <name>.trashinfo exceeds NAME_MAX: creating it fails with ENAMETOOLONG, which means
+                        \* "go on with the next (from now on shortened) name"; the names after it in Slots are the shortened ones
           Mutant        \* "none" | "noprobe" | "nonexcl" | "chkmkdir" | "retryall" | "payfirst" | "nocleanup"
 
 TDs == {Cands[i] : i \in 1 .. Len(Cands)}
@@ -146,7 +148,11 @@ Probe(p) ==
 CreateExcl(p) ==
   /\ pc[p] = "create"
   /\ LET t == T(p)  s == slot[p] IN
-     \/ /\ ~StickyFails(p, "create")
+     \/ /\ ~StickyFails(p, "create") /\ s \in TooLong                                    \* ENAMETOOLONG: shorten and go on
+        /\ idx' = [idx EXCEPT ![p] = IF @ <= Len(Slots) THEN @ + 1 ELSE @]
+        /\ pc' = [pc EXCEPT ![p] = "probe"] /\ nfaults' = nfaults
+        /\ UNCHANGED <<info, clobbered, cand, slot, part, res>>
+     \/ /\ ~StickyFails(p, "create") /\ s \notin TooLong
         /\ IF info[t][s] = NoneV \/ Mutant = "nonexcl"
            THEN /\ clobbered' = (clobbered \/ info[t][s] # NoneV)                       \* a non-exclusive create truncates
                 /\ info' = [info EXCEPT ![t][s] = Own("empty", p)]
